@@ -17,3 +17,7 @@ open Verif.Props.C05
 #print axioms path_parse_roundtrip
 #print axioms shorten_output_parses
 #print axioms shorten_output_parses_of_contract
+#print axioms path_geometry_partial
+#print axioms Verif.Proofs.SvgInduct.groups_geometry
+#print axioms Verif.Proofs.SvgSound.rewrite_sound
+#print axioms Verif.Proofs.SvgVal.numVal_numLexeme
